@@ -38,7 +38,7 @@ def one(args):
                 if time.time() - t0 > 6 and p.poll() is None:   # no fault reached within the launch of everything: let it finish
                     opened()
         try:
-            out, _ = p.communicate(timeout=90)
+            out, _ = p.communicate(timeout=300)
         except subprocess.TimeoutExpired:
             p.kill()
             return {"k": k, "problem": "the first run does not finish", "machinery": True}
@@ -58,7 +58,7 @@ def one(args):
                 time.sleep(1.5)      # the restarted scheduler meets running jobs
                 opened()
             try:
-                q.communicate(timeout=120)
+                q.communicate(timeout=400)
             except subprocess.TimeoutExpired:
                 q.kill()
                 res["problem"] = "the restarted experiment does not finish"
